@@ -127,6 +127,23 @@ def data_event(inst, rng, prop="C01"):
     ev = {"op": "data", "prop": prop, "ncurves": C, "nrows": R, "mask": mask, "names": names, "exc": "",
           "opts": {k: (str(v) if isinstance(v, dict) else v) for k, v in kw.items()}, "engine": inst["engine"],
           "obs": {"ncurves": 0, "nrows": 0, "names": [], "cells": []}}
+    if R > 0 and C > 1 and rng.random() < 0.4:
+        # the object has a history: it held other samples in a few cells when it was last looked at and written (las.data, df(),
+        # a write with default options); the true values are then stored IN PLACE, into the arrays the curves already hold
+        cells_ = [(rng.randrange(R), rng.randrange(1, C)) for _ in range(3)]
+        true_ = [float(las.curves[j].data[i]) for i, j in cells_]
+        try:
+            for (i, j), t in zip(cells_, true_):
+                las.curves[j].data[i] = 7.5 if t != t else np.nan
+            las.data
+            las.write(io.StringIO())
+            if R < 50:
+                las.df()
+        except Exception:
+            pass
+        for (i, j), t in zip(cells_, true_):
+            las.curves[j].data[i] = t
+        ev["history"] = "written once with other samples; edited in place"
     s = io.StringIO()
     try:
         las.write(s, **{k: (dict(v) if isinstance(v, dict) else v) for k, v in kw.items()})
@@ -292,6 +309,21 @@ def header_event(inst, rng, prop="C03"):
             las = lasio.read(tmp.getvalue(), mnemonic_case=case, ignore_data=rng.random() < 0.35)
         except Exception:
             pass
+    history = ""
+    if rng.random() < 0.4:
+        # the object has a history: it was written once while its items were still empty; units, values and descriptions were
+        # filled in afterwards (attribute assignment on the items the sections already hold)
+        saved = [(it, it.unit, it.value, it.descr) for sc in (las.well, las.params, las.curves) for it in list.__iter__(sc)]
+        try:
+            for it, u_, v_, d_ in saved:
+                if it.original_mnemonic.upper() not in ("NULL",):
+                    it.value, it.descr = "", ""
+            las.write(io.StringIO(), version=float(version))
+        except Exception:
+            pass
+        for it, u_, v_, d_ in saved:
+            it.unit, it.value, it.descr = u_, v_, d_
+        history = "written once with empty items; filled in afterwards"
     ev = {"op": "header", "prop": prop, "version": version, "case": case, "exc": "", "secs": [], "obs": [], "other": codes(las.other),
           "obs_other": [], "items": inst["items"], "sec": sec}
     names = [("Version", las.version), ("Well", las.well), ("Curves", las.curves), ("Parameter", las.params)]
@@ -378,13 +410,26 @@ def diff_items(a_secs, b_secs):
     return out
 
 
-def cycle(text, kw, n, read_kw=None):
-    """read x; then n times (write, re-read).  Returns (digests of the re-reads, info) -- 'EXC' when a step fails."""
+def cycle(text, kw, n, read_kw=None, assemble=False):
+    """read x; then n times (write, re-read).  Returns (digests of the re-reads, info) -- 'EXC' when a step fails.
+    assemble: the object that is written first was put together in steps - its header read with ignore_data=True, its samples
+    (those of the file, the index moved by 1000) stored afterwards with set_data()."""
     read_kw = read_kw or {}
     out = []
     info = {"first_difference": None, "idxloss": False, "only_sss": False, "data_equal": True}
     try:
         las = lasio.read(text, **read_kw)
+        if assemble:
+            data = las.data
+            if data.ndim != 2 or data.shape[0] == 0 or data.dtype.kind != "f" or len(las.curves) != data.shape[1]:
+                return None, None
+            head = lasio.read(text, ignore_data=True, **read_kw)
+            if len(head.curves) != data.shape[1]:
+                return None, None
+            data = data.copy()
+            data[:, 0] += 1000.0
+            head.set_data(data)
+            las = head
     except Exception:
         return None, None
     fmt0 = (kw.get("column_fmt") or {}).get(0, kw.get("fmt", "%.5f"))
